@@ -40,7 +40,8 @@ GOOD_H = [(("b", b"content-type"), ("b", b"text/plain")), (("b", b"x-a"), ("b", 
 BAD_H = [(("s", "x-str"), ("b", b"v")), (("b", b"x-v"), ("s", "str")), (("b", b":status"), ("b", b"200")), (("b", b""), ("b", b"v")),
          (("b", b"x-int"), ("i", 3)), (("b", b"x-zero"), ("i", 0)), (("n",), ("b", b"v")), (("b", b"x-none"), ("n",)),
          (("b", b"x-crlf"), ("b", b"a\r\nx-injected: 1")), (("b", b"x-nul"), ("b", b"a\x00b")), (("b", b"x\nq"), ("b", b"v")),
-         (("i", 5), ("b", b"v")), (("s", ""), ("b", b"v")), (("b", b"x-neg"), ("i", -1)), (("b", b"x-lf-edge"), ("b", b"\nv\n"))]
+         (("i", 5), ("b", b"v")), (("s", ""), ("b", b"v")), (("b", b"x-neg"), ("i", -1)), (("b", b"x-lf-edge"), ("b", b"\nv\n")),
+         (("b", b" :status"), ("b", b"500")), (("b", b"\t:path "), ("b", b"/x"))]
 
 
 def gen_headers(rng, p_bad=0.25):
